@@ -57,12 +57,20 @@ def to_smt2(hyps, goal):
 
 
 def _model_dict(m):
+    """model -> {name: text}.  Arrays Int->(Int|Real|Bool) are sampled at indices -1..95 and shipped as
+    'ARRAY{i:v,...}' so that the replay side does not have to parse nested Store terms."""
     out = {}
     for d in m.decls():
         try:
             v = m[d]
             if d.arity() == 0:
-                if z3.is_array(v) or isinstance(v, z3.FuncInterp) or z3.is_as_array(v):
+                c = d()
+                if isinstance(c.sort(), z3.ArraySortRef) and c.sort().domain() == z3.IntSort() and not isinstance(c.sort().range(), z3.ArraySortRef):
+                    vals = []
+                    for i in range(-1, 96):
+                        vals.append("%d:%s" % (i, m.eval(z3.Select(c, z3.IntVal(i)), model_completion=True)))
+                    out[d.name()] = "ARRAY{" + ",".join(vals) + "}"
+                elif z3.is_array(v) or isinstance(v, z3.FuncInterp) or z3.is_as_array(v):
                     out[d.name()] = str(v)[:400]
                 else:
                     out[d.name()] = str(v)
